@@ -106,7 +106,7 @@ def make_frag_spec(r, ref, fid, hot):
     return {'kind': kind, 'recs': recs}
 
 
-def oracle(frags, dove_safe):
+def oracle(frags, dove_safe, pos_filter=None):
     votes = defaultdict(Counter)
     ties = 0
     disagree = 0
@@ -134,6 +134,8 @@ def oracle(frags, dove_safe):
             for i, (b, q) in enumerate(zip(rec['seq'], rec['qual'])):
                 p = rec['pos'] + i
                 if lo is not None and not (lo <= p <= hi):
+                    continue
+                if pos_filter is not None and not pos_filter(p):
                     continue
                 calls[p].append((b, q))
         for p, cs in calls.items():
